@@ -19,6 +19,12 @@
     - [notifications] is empty between events (it is drained within the event that fills it);
     - every packet queued on a link is well typed (SUBSCRIBE qos values are <= 2: in Rust the
       field is the enum [QoS]). *)
+(** The dev profile needs one more clause (it makes debug_assert!(check_tracker_duplicates) hold):
+    for every live connection the data requests held in its tracker, in all waiter lists and in
+    notifications carry pairwise different subscription filters, all of them members of the
+    connection's subscription set, and likewise for the sessions saved in the graveyard.  It is
+    kept separate: [DevI] in NoPanicDevInv.v / NoPanicDev3.v, [RInvD st := RInv st /\ DevI st] in
+    NoPanicDev.v, where [c03_no_panic_dev] is proved. *)
 From Rumqtt Require Export Router.Model Router.InvLemmasBase Log.Spec.
 From Coq Require Import Arith ZifyBool ZifyN ZifyNat.
 
